@@ -64,6 +64,10 @@ def check(repo, col, tier):
                               f"same voltage changes it", node=_ret_value(fi_init.node, k),
                               sides={"init_state": repr(x0)[:400], "after one update": repr(x1)[:400]})
     _rows(repo, col)
+    # init_states walks `channels`: a channel of a constituent that is not registered there is never initialised
+    from . import c12
+    col.rule("R-C14-registry", "every channel of the constituents is registered in `channels` (init_states iterates that list)", 2)
+    c12._channels(repo, col, "R-C14-registry")
 
 
 def _ret_value(fn, key):
